@@ -43,8 +43,8 @@ def specView (app : App) (cls : Nat) (key : CtxKey) (r : ViewLookup.Request) : V
   | some v => if v.secured && !app.permits key v.tag then .forbidden v.tag else .response v.tag
   | none => if ViewLookup.anyRegistered app.regs cls r then .mismatch else .none
 
-/-- step 3, continued: what the chosen body does, or what the lookup raises -/
-def specMain (app : App) (key : CtxKey) (r : ViewLookup.Request) : Except Exc Resp :=
+/-- step 3, continued: what the chosen body does, or what the lookup raises (`nf` when nothing is registered) -/
+def specMain (app : App) (nf : Exc) (key : CtxKey) (r : ViewLookup.Request) : Except Exc Resp :=
   match specView app clsView key r with
   | .response t =>
     match bodyOf app.stmts t with
@@ -53,7 +53,7 @@ def specMain (app : App) (key : CtxKey) (r : ViewLookup.Request) : Except Exc Re
     | .raise e => .error e
   | .forbidden _ => .error app.world.forbidden
   | .mismatch => .error app.world.mismatch
-  | .none => .error app.world.notFound
+  | .none => .error nf
 
 /-- step 4: rendering of exception `e` for the record `r0` -/
 def specRender (app : App) (r0 : ViewLookup.Request) (combinedSro : List Nat) (e : Exc) : Final :=
@@ -67,34 +67,58 @@ def specRender (app : App) (r0 : ViewLookup.Request) (combinedSro : List Nat) (e
   | .mismatch => .propagates e
   | .none => .propagates e
 
+/-- step 4, what the exception view's body sees when one runs: the exception as context, as `request.exception` and in
+`request.exc_info`, and no `response` attribute -/
+def specSeen (app : App) (r0 : ViewLookup.Request) (combinedSro : List Nat) (e : Exc) : Option ExcView.Seen :=
+  match specView app clsExc (.exc e.sro) (ExcView.excRequest r0 e combinedSro) with
+  | .response _ => some ⟨e.id, some e.id, some e.id, none⟩
+  | _ => none
+
 /-- what leaves the router when the request attributes are `a` and the handler answered / raised `main` -/
-def specFinish (app : App) (rq : Req) (a : Attrs) (hooks : List Point) (main : Except Exc Resp) : Outcome :=
+def specFinish (app : App) (rq : Req) (a : Attrs) (hooks : List Hook) (main : Except Exc Resp) : Outcome :=
   match main with
-  | .ok resp => ⟨.response resp, none, a, hooks⟩
-  | .error e => ⟨specRender app (record app rq a) a.combinedSro e, some e, a, hooks⟩
+  | .ok resp => ⟨.response resp, none, a, none, hooks⟩
+  | .error e =>
+    ⟨specRender app (record app rq a) a.combinedSro e, some e, a,
+     specSeen app (record app rq a) a.combinedSro e, hooks⟩
+
+/-- lines 166-168 as built (finding F-X01b): the `HTTPNotFound` message is `request.path_info`, and reading it raises
+`KeyError` when `PATH_INFO` is absent from the environ; with `PATH_INFO` present this is `HTTPNotFound` -/
+def specNotFound (app : App) (rq : Req) : Exc :=
+  if rq.pathInfo.isSome then app.world.notFound else app.keyError
 
 /-- steps 2-4, the route stage having decided the attributes `a` and the matched route `d` -/
 def specAfterRoute (app : App) (rq : Req) (a : Attrs) (d : Option RouteDecl) : Outcome :=
   let (ri, hook) := rootIndex app d
+  let h0 : List Hook := [(.newRequest, Attrs.none), (.beforeTraversal, a), (hook, a)]
   match app.roots[ri]? with
-  | none => specFinish app rq a [.newRequest, .beforeTraversal, hook] (.error app.urlDecode)
+  | none => specFinish app rq a h0 (.error app.urlDecode)
   | some root =>
     match root.raises with
-    | some e => specFinish app rq a [.newRequest, .beforeTraversal, hook] (.error e)
+    | some e => specFinish app rq a h0 (.error e)
     | none =>
-      match Trav.specTraverser root.tree ⟨rq.pathInfo, none, a.matchdict.map travMatchdict⟩ with
-      | .error _ =>
-        specFinish app rq { a with root := some ri } [.newRequest, .beforeTraversal, hook, .traverser] (.error app.urlDecode)
+      let a1 := { a with root := some ri }
+      match Trav.specTraverser root.tree ⟨rq.pathInfo, rq.vroot, a.matchdict.map travMatchdict⟩ with
+      | .error err => specFinish app rq a1 (h0 ++ [(.traverser, a1)]) (.error (travExc app err))
       | .ok t =>
-        let a' := { a with root := some ri, trav := some t }
-        specFinish app rq a' [.newRequest, .beforeTraversal, hook, .traverser, .contextFound]
-          (specMain app (.res ri t.context) (record app rq a'))
+        let a2 := { a with root := some ri, trav := some t }
+        specFinish app rq a2 (h0 ++ [(.traverser, a1), (.contextFound, a2)])
+          (specMain app (specNotFound app rq) (.res ri t.context) (record app rq a2))
 
 /-- the whole request -/
 def specHandle (app : App) (rq : Req) : Outcome :=
   match specRoute app rq with
-  | none => specFinish app rq Attrs.none [.newRequest] (.error app.urlDecode)
+  | none => specFinish app rq Attrs.none [(.newRequest, Attrs.none)] (.error app.urlDecode)
   | some none => specAfterRoute app rq Attrs.none none
   | some (some (i, d, e)) => specAfterRoute app rq (Attrs.matched i d e) (some d)
+
+/-! ### comparing up to `traversed` (C02's F-C02a: with a virtual root the real `traversed` may be longer than the consumed
+segments; nothing else in the router reads it) -/
+
+def Attrs.eraseTraversed (a : Attrs) : Attrs :=
+  { a with trav := a.trav.map fun t => { t with traversed := [] } }
+
+def Outcome.eraseTraversed (o : Outcome) : Outcome :=
+  { o with attrs := o.attrs.eraseTraversed, hooks := o.hooks.map fun h => (h.1, h.2.eraseTraversed) }
 
 end Pyr.Router
